@@ -24,6 +24,11 @@ chk("C17",
     TRUST + "Not decided: listener behaviour; depinject registration of listeners; 'effects uncommitted' relies on SDK message atomicity once the handler returns the error (which is decided).",
     "sibling cross-check + effect automaton over abstract paths (exactly-once / ordering) + provenance-term equality of hook arguments and written record", "DESIGN.md section 4 C17")
 
+chk("C10",
+    "Structural necessary conditions: (AL-DOM) for every bid type the message's own ValidateBasic admits (computed by abstract evaluation of ValidateBasic over the enum's constants), the Bid record write is unreachable when the AllowedBidder lookup keyed by (operated auction id, message bidder) fails; (AL-GUARD) with the testing switch evaluated to false no MsgServer method reaches an AllowedBidder store write (six of them have no call-graph path at all) and neither does the block hook; (SW-OWNER) across every package of the binary's import closure that can name the switch, the only writes are in its own package init, which computes ParseBool of a link-time string whose initialiser parses to false and that nothing else writes; no address-of, no go:linkname; the Makefile's unconditional ldflags do not set the flag. The configuration quantifier (every default build) is exactly what a whole-closure who-may-write rule covers and a test run in one binary cannot.",
+    TRUST + "Builds that pass the documented -X testing flag are outside the property's quantifier. Not decided: nothing numeric; the history clause rests on AL-DOM plus the Bid writer table.",
+    "who-may-write scan over the import closure + abstract path exploration under a fixed switch / failing lookup (finite domains)", "DESIGN.md section 4 C10")
+
 PENDING = {}  # property -> reason (kept current as checks are added)
 ALL = ["C%02d" % i for i in range(1, 21)]
 for p in ALL:
